@@ -618,9 +618,48 @@ fn single_kind_cases(rng: &mut Rng, kind: &'static str, count: usize, maxlen: i6
     cases
 }
 
+/// arbitrary states re-injected through `from_guts` (the recurrences are one-step statements about any state)
+fn injected_cases(rng: &mut Rng, count: usize, first: &dyn Fn(&mut Rng) -> String, two_inputs: bool, guts: &[&str]) -> Vec<Case> {
+    let mut cases = Vec::new();
+    for _ in 0..count {
+        let mut c = vec![first(rng)];
+        for g in guts {
+            c.push(format!("guts 1 {}", g));
+        }
+        for _ in 0..rng.range(1, 5) {
+            let x = if rng.chance(1, 2) { rng.range(-9, 9).to_string() } else { small_rat(rng, true) };
+            if two_inputs && rng.chance(1, 2) {
+                c.push(format!("f 1 {} {}", x, small_rat(rng, true)));
+            } else {
+                c.push(format!("f 1 {}", x));
+            }
+            for g in guts {
+                if rng.chance(1, 2) {
+                    c.push(format!("guts 1 {}", g));
+                }
+            }
+        }
+        cases.push(c);
+    }
+    cases
+}
+fn opt_rat(rng: &mut Rng) -> String {
+    if rng.chance(1, 4) { "none".to_string() } else { rat(rng) }
+}
+
 /// C06
 pub fn gen_kalman(rng: &mut Rng, tier: &Tier) -> Vec<Case> {
     let mut cases = single_kind_cases(rng, "kalman", tier.n(300, 4000), 9, &["cov", "value"]);
+    cases.extend(injected_cases(
+        rng,
+        tier.n(80, 800),
+        &|rng| {
+            let k = random_kind(rng, "kalman");
+            format!("inject 1 {} cov={} value={}", k.params, rat(rng), opt_rat(rng))
+        },
+        true,
+        &["cov", "value"],
+    ));
     // plain measurement == measurement paired with a zero control input
     for _ in 0..tier.n(100, 1000) {
         let k = random_kind(rng, "kalman");
@@ -639,6 +678,16 @@ pub fn gen_kalman(rng: &mut Rng, tier: &Tier) -> Vec<Case> {
 /// C13
 pub fn gen_smooth(rng: &mut Rng, tier: &Tier) -> Vec<Case> {
     let mut cases = single_kind_cases(rng, "ema", tier.n(300, 3000), 10, &["mean"]);
+    cases.extend(injected_cases(
+        rng,
+        tier.n(60, 600),
+        &|rng| {
+            let k = random_kind(rng, "ema");
+            format!("inject 1 {} mean={}", k.params, opt_rat(rng))
+        },
+        false,
+        &["mean"],
+    ));
     cases.extend(single_kind_cases(rng, "emedian", tier.n(300, 3000), 8, &["median"]));
     // constant signals are reproduced exactly
     for kind in ["ema", "emedian"] {
@@ -658,6 +707,16 @@ pub fn gen_smooth(rng: &mut Rng, tier: &Tier) -> Vec<Case> {
 /// C14
 pub fn gen_alphabeta(rng: &mut Rng, tier: &Tier) -> Vec<Case> {
     let mut cases = single_kind_cases(rng, "alphabeta", tier.n(400, 4000), 10, &["velocity", "value"]);
+    cases.extend(injected_cases(
+        rng,
+        tier.n(80, 800),
+        &|rng| {
+            let k = random_kind(rng, "alphabeta");
+            format!("inject 1 {} velocity={} value={}", k.params, rat(rng), opt_rat(rng))
+        },
+        false,
+        &["velocity", "value"],
+    ));
     for _ in 0..tier.n(100, 1000) {
         let k = random_kind(rng, "alphabeta");
         let v = rat_nonzero(rng);
@@ -734,6 +793,8 @@ pub fn gen_diffint(rng: &mut Rng, tier: &Tier) -> Vec<Case> {
             cases.push(c);
         }
     }
+    cases.extend(injected_cases(rng, tier.n(30, 300), &|rng| format!("inject 1 integrate value={}", rat(rng)), false, &["value"]));
+    cases.extend(injected_cases(rng, tier.n(30, 300), &|rng| format!("inject 1 differentiate value={}", opt_rat(rng)), false, &["value"]));
     // after a reset the first difference / the running sum start over
     for _ in 0..tier.n(60, 600) {
         let mut c = vec!["new 1 differentiate".to_string(), "new 2 integrate".to_string()];
